@@ -9,27 +9,32 @@ var encodeIndent = 0
 
 type asn1Object interface {
 	EncodeTo(writer *bytes.Buffer) error
+	// encodedLen is the number of bytes EncodeTo writes
+	encodedLen() int
 }
 
 type asn1Structured struct {
 	tagBytes []byte
 	content  []asn1Object
+	length   int // DER length of the content, computed once by readObject
+}
+
+func (s asn1Structured) encodedLen() int {
+	return len(s.tagBytes) + derLengthSize(s.length) + s.length
 }
 
 func (s asn1Structured) EncodeTo(out *bytes.Buffer) error {
 	//fmt.Printf("%s--> tag: % X\n", strings.Repeat("| ", encodeIndent), s.tagBytes)
+	out.Write(s.tagBytes)
+	encodeLength(out, s.length)
 	encodeIndent++
-	inner := new(bytes.Buffer)
 	for _, obj := range s.content {
-		err := obj.EncodeTo(inner)
+		err := obj.EncodeTo(out)
 		if err != nil {
 			return err
 		}
 	}
 	encodeIndent--
-	out.Write(s.tagBytes)
-	encodeLength(out, inner.Len())
-	out.Write(inner.Bytes())
 	return nil
 }
 
@@ -37,6 +42,10 @@ type asn1Primitive struct {
 	tagBytes []byte
 	length   int
 	content  []byte
+}
+
+func (p asn1Primitive) encodedLen() int {
+	return len(p.tagBytes) + derLengthSize(p.length) + p.length
 }
 
 func (p asn1Primitive) EncodeTo(out *bytes.Buffer) error {
@@ -96,6 +105,14 @@ func lengthLength(i int) (numBytes int) {
 		i >>= 8
 	}
 	return
+}
+
+// number of length octets DER uses for length
+func derLengthSize(length int) int {
+	if length >= 128 {
+		return 1 + lengthLength(length)
+	}
+	return 1
 }
 
 // encodes the length in DER format
@@ -218,6 +235,7 @@ func readObject(ber []byte, offset int) (asn1Object, int, error) {
 		}
 	} else {
 		var subObjects []asn1Object
+		subLen := 0
 		for (offset < contentEnd) || indefinite {
 			var subObj asn1Object
 			var err error
@@ -226,6 +244,7 @@ func readObject(ber []byte, offset int) (asn1Object, int, error) {
 				return nil, 0, err
 			}
 			subObjects = append(subObjects, subObj)
+			subLen += subObj.encodedLen()
 
 			if indefinite {
 				terminated, err := isIndefiniteTermination(ber, offset)
@@ -241,6 +260,7 @@ func readObject(ber []byte, offset int) (asn1Object, int, error) {
 		obj = asn1Structured{
 			tagBytes: ber[tagStart:tagEnd],
 			content:  subObjects,
+			length:   subLen,
 		}
 	}
 
@@ -257,5 +277,5 @@ func isIndefiniteTermination(ber []byte, offset int) (bool, error) {
 		return false, errors.New("ber2der: Invalid BER format")
 	}
 
-	return bytes.Index(ber[offset:], []byte{0x0, 0x0}) == 0, nil
+	return bytes.HasPrefix(ber[offset:], []byte{0x0, 0x0}), nil
 }
